@@ -58,6 +58,8 @@ func (o cop) expected() string {
 		return "ok"
 	case "ReadDirCtx":
 		return "*" // a listing or a context error: both are proper results
+	case "ReadDir":
+		return fmt.Sprintf("entries=%c", o.path[len(o.path)-1])
 	case "ReadAt":
 		return fmt.Sprintf("n=2 %q", callsFile[o.off:o.off+2])
 	case "ReadAt6":
@@ -102,6 +104,12 @@ func (o cop) do(c *Client, f *File) (string, error) {
 			return "", err
 		}
 		return fmt.Sprintf("n=%d %q", n, b[:n]), nil
+	case "ReadDir": // a listing that spans several batches (the peer sends one entry per READDIR for /dir<k>)
+		es, err := c.ReadDir(o.path)
+		if err != nil {
+			return "", err
+		}
+		return fmt.Sprintf("entries=%d", len(es)), nil
 	case "ReadDirCtx": // a listing under a context that another thread cancels at some point
 		es, err := c.ReadDirContext(callsCtx, o.path)
 		if err != nil {
@@ -138,7 +146,7 @@ func (o cop) matches(r preq) bool {
 		return r.typ == sshFxpRealpath && r.path == o.path
 	case "Mkdir":
 		return r.typ == sshFxpMkdir && r.path == o.path
-	case "ReadDirCtx":
+	case "ReadDirCtx", "ReadDir":
 		return r.typ == sshFxpOpendir && r.path == o.path
 	case "ReadAt":
 		return r.typ == sshFxpRead && int(r.off) == o.off
@@ -157,6 +165,7 @@ type callsSpec struct {
 	cut       int // -1 none
 	cutErr    bool
 	fw        int
+	fwEOF     bool // the failing writes report io.EOF (what a closed ssh channel does)
 	after     bool // one more Stat after all callers returned
 	sync1     bool // rendezvous c2s pipe
 	handsh    bool // the cut may fall into the handshake
@@ -171,7 +180,7 @@ func (s callsSpec) String() string {
 		}
 		cs = append(cs, strings.Join(os, ";"))
 	}
-	return fmt.Sprintf("callers[%s] cut=%d cuterr=%v fw=%d", strings.Join(cs, " | "), s.cut, s.cutErr, s.fw)
+	return fmt.Sprintf("callers[%s] cut=%d cuterr=%v fw=%d fwEOF=%v", strings.Join(cs, " | "), s.cut, s.cutErr, s.fw, s.fwEOF)
 }
 
 type callRes struct {
@@ -200,6 +209,9 @@ func callsScenario(s callsSpec, prop string) explore.Scenario {
 					}
 				}
 				e.c2s.FailWrite = s.fw
+				if s.fwEOF {
+					e.c2s.FailErr = io.EOF
+				}
 				replyEnds = map[uint32]int{}
 				e.peer.Hook = func(p *vpeer, r preq) []byte {
 					b := p.answer(r)
@@ -283,6 +295,33 @@ func callsScenario(s callsSpec, prop string) explore.Scenario {
 				return fail("close", "Client.Close returned %v", closeErr)
 			}
 			check := func(o cop, r callRes) *explore.Verdict {
+				if o.kind == "ReadDir" {
+					// a conversation of several requests: nil means the whole listing; an error needs a fault, and a
+					// cut that came after the reply to the CLOSE of its handle is no excuse
+					if r.err == nil {
+						if r.val != o.expected() {
+							x := fail("no-error:ReadDir", "%s returned %q with nil error, the directory has %s", o, r.val, o.expected())
+							return &x
+						}
+						return nil
+					}
+					excused := s.fw > 0
+					if s.cut >= 0 {
+						excused = true
+						for _, w := range env.peer.Wire {
+							if w.typ == sshFxpClose && strings.HasPrefix(w.handle, "d") {
+								if end, ok := replyEnds[w.id]; ok && end <= s.cut {
+									excused = false
+								}
+							}
+						}
+					}
+					if !excused {
+						x := fail("lost-reply:ReadDir", "%s returned error %v although all its replies were received completely", o, r.err)
+						return &x
+					}
+					return nil
+				}
 				complete := true
 				if faulty {
 					complete = false
